@@ -64,6 +64,18 @@ Proof. exact maxpool2d_padding_never_wins. Qed.
 Goal True. idtac "ASSUMPTIONS maxpool_padding_never_wins". Abort.
 Print Assumptions maxpool_padding_never_wins.
 
+(* the same without any assumption on the geometry: as soon as one kernel offset of the window reads a real position, the -inf
+   padding is not the maximum *)
+Theorem maxpool_real_cell_wins :
+  forall g (x : pos -> Z) n c wi wj, valid g ->
+    0 <= n < gN g -> 0 <= c < gC g -> 0 <= wi < lH g -> 0 <= wj < lW g ->
+    (exists a b i0, 0 <= a < kH g /\ 0 <= b < kW g /\ phi_win_opt g (wi, wj, n, c, a, b) = Some i0) ->
+    exists i, sel2 g x (n, c, wi, wj) = Some i /\ maxpool2d_fwd g x (n, c, wi, wj) = Fin (x i) /\
+      forall a b i', 0 <= a < kH g -> 0 <= b < kW g -> phi_win_opt g (wi, wj, n, c, a, b) = Some i' -> x i' <= x i.
+Proof. intros g x n c wi wj Hv Hn Hc Hwi Hwj. now apply maxpool2d_selects. Qed.
+Goal True. idtac "ASSUMPTIONS maxpool_real_cell_wins". Abort.
+Print Assumptions maxpool_real_cell_wins.
+
 Theorem maxpool_padding_never_wins_1d :
   forall g (x : pos1 -> Z) n c wj, valid1 g ->
     0 <= n < N1 g -> 0 <= c < C1 g -> 0 <= wj < l1 g -> p1 g <= (k1 g - 1) * d1 g -> d1 g <= W1 g ->
